@@ -44,6 +44,13 @@ plain = st.text(alphabet=ASCII_PRINT, min_size=0, max_size=12)
 word = st.text(alphabet="abcdefghijklmnopqrstuvwxyz0123456789", min_size=1, max_size=8)
 piece = st.one_of(st.sampled_from(FRAGMENTS), st.sampled_from(FRAGMENTS), plain, word)
 cif_string = st.lists(piece, min_size=0, max_size=6).map("".join).map(lambda s: s[:200])
+# For multi-value documents: a newline followed by a semicolon cannot be represented in CIF 1.1 (the writer
+# refuses it), and one such value makes the whole document unwritable. The single-value facet keeps them;
+# documents get them rarely so that most documents are actually written and parsed.
+doc_string = st.one_of(cif_string.map(lambda s: s.replace("\n;", "\n ;")), cif_string.map(lambda s: s.replace("\n;", "\n ;")),
+                       cif_string.map(lambda s: s.replace("\n;", "\n ;")), cif_string.map(lambda s: s.replace("\n;", "\n ;")),
+                       cif_string.map(lambda s: s.replace("\n;", "\n ;")), cif_string.map(lambda s: s.replace("\n;", "\n ;")),
+                       cif_string.map(lambda s: s.replace("\n;", "\n ;")), cif_string)
 simple_string = st.one_of(word, word, plain)
 tag_name = st.text(alphabet="abcdefghijklmnopqrstuvwxyzABCXYZ0123456789_.-", min_size=1, max_size=16)
 comment_text = st.one_of(st.just(""), st.just(""), st.lists(st.one_of(plain, st.sampled_from(["#", "# x", "é", "漢", "", ";", "_a 1", "loop_", "data_z"])),
@@ -307,7 +314,7 @@ def loop_desc(draw, keys):
         keys.add(key.lower())
         typ = draw(st.sampled_from(["str", "str", "simple", "int", "float", "float_var"]))
         if typ == "str":
-            vals = [draw(cif_string) for _ in range(nrows)]
+            vals = [draw(doc_string) for _ in range(nrows)]
         elif typ == "simple":
             vals = [draw(simple_string) for _ in range(nrows)]
             typ = "str"
@@ -330,7 +337,7 @@ def chunk_desc(draw, keys):
     for _ in range(n):
         key = draw(tag_name.filter(lambda k: k.lower() not in keys))
         keys.add(key.lower())
-        pairs.append([key, draw(value_desc())])
+        pairs.append([key, draw(value_desc(strings=doc_string))])
     return {"kind": "chunk", "comment": draw(comment_text), "schema": draw(st.sampled_from([None, None, "core", "pd"])),
             "pairs": pairs}
 
@@ -518,7 +525,7 @@ def orcid(digits15):
     return "-".join(s[i:i + 4] for i in range(0, 16, 4))
 
 
-person_text = st.one_of(word, st.lists(word, min_size=1, max_size=3).map(" ".join), cif_string.filter(lambda s: s.strip() != ""))
+person_text = st.one_of(word, st.lists(word, min_size=1, max_size=3).map(" ".join), doc_string.filter(lambda s: s.strip() != ""))
 
 
 @st.composite
